@@ -156,6 +156,68 @@ func runC12(c *fw.Ctx) {
 	}
 	c.Bound("predicates", len(preds))
 	c.Bound("mutation_list_pairs", len(lists)*len(lists))
+	// Wide pass: EVERY chain / interleave / condition of depth 2 over the 21-leaf filter basis of C05 as the predicate (a
+	// predicate path that evaluates a composition differently from ReadRows shows only for particular pairs, e.g. a transformer
+	// in front of a value test), on every row of the C05 tables and on an absent row, with one distinguishable pair of branches
+	b20 := c05Basis20()
+	opt := append([]*bt.Filter{nil}, c05Basis8()...)
+	var wide []*bt.Filter
+	for _, a := range b20 {
+		for _, b := range b20 {
+			wide = append(wide, &bt.Filter{Kind: "chain", Subs: []*bt.Filter{a, b}}, &bt.Filter{Kind: "interleave", Subs: []*bt.Filter{a, b}})
+		}
+		for _, t := range opt {
+			for _, f := range opt {
+				wide = append(wide, &bt.Filter{Kind: "cond", Pred: a, True: t, False: f})
+			}
+		}
+	}
+	vals := []*bt.Filter{re("val_re", ""), re("val_re", "x"), re("val_re", "x.*"), {Kind: "val_range", SK: 1, Start: []byte("a")}, {Kind: "val_range", EK: 2, End: []byte("a")}}
+	for _, v := range vals {
+		wide = append(wide, &bt.Filter{Kind: "chain", Subs: []*bt.Filter{{Kind: "strip"}, v}}, &bt.Filter{Kind: "chain", Subs: []*bt.Filter{v, {Kind: "strip"}}},
+			&bt.Filter{Kind: "chain", Subs: []*bt.Filter{re("fam_re", "f"), {Kind: "strip"}, v}},
+			&bt.Filter{Kind: "chain", Subs: []*bt.Filter{re("label", "l"), v}},
+			&bt.Filter{Kind: "cond", Pred: &bt.Filter{Kind: "chain", Subs: []*bt.Filter{{Kind: "strip"}, v}}, True: &bt.Filter{Kind: "pass", B: true}})
+	}
+	var witem int64
+	for _, eng := range engines {
+		for _, setup := range c05Tables() {
+			for _, key := range []string{"r1", "r2", "r3", "absent", "n\nk"} {
+				for lo := 0; lo < len(wide); lo += 200 {
+					witem++
+					if !c.Mine(witem) {
+						continue
+					}
+					if c.Expired() {
+						c.Incomplete("time budget reached in the wide predicate pass")
+						return
+					}
+					for _, p := range wide[lo:min(lo+200, len(wide))] {
+						o := bt.Op{Kind: "CheckAndMutate", Table: tblT, Key: []byte(key), Pred: p,
+							TrueM: []bt.Mut{mset("f", "hit", 5000, "t")}, FalseM: []bt.Mut{mset("g", "miss", 5000, "f")}}
+						ops := []bt.Op{o}
+						m, cl, _, hh := runSeq(c, eng, setup, ops, false)
+						c.Eval(1)
+						c.Trace(1)
+						c.Trans(1)
+						if m != "" {
+							sc := seqCase{Engine: eng, Setup: setup, Ops: ops}
+							c.Violate(fmt.Sprintf("C12:%s:%s:%s", eng, cl, c12Tag(&ops[0])), m+"\n  sequence: "+bt.OpsString(ops), sc, func() string {
+								s, _ := replaySeq(c, "C12", sc, c12Tag)
+								return s
+							})
+							continue
+						}
+						if cl != "ambiguous" {
+							c.Outcome(fmt.Sprintf("%s:matched=%s", lastRunResp.Code, pbs(lastRunResp.Matched)))
+							c.State(hh)
+						}
+					}
+				}
+			}
+		}
+	}
+	c.Bound("wide_predicates", len(wide))
 }
 
 func pbs(b *bool) string {
